@@ -337,6 +337,198 @@ func sortShape(sortFn, less *ast.FuncDecl) string {
 		skipD, skipU, base, bits, fwd, rev)
 }
 
+// ---- round 8: semantic shapes of the shipped allocators, of the allocator call in obtainAllocations and of repinFromPeer ----
+
+// paramNames lists a function's parameter names in order.
+func paramNames(fd *ast.FuncDecl) []string {
+	var l []string
+	for _, f := range fd.Type.Params.List {
+		for _, n := range f.Names {
+			l = append(l, n.Name)
+		}
+	}
+	return l
+}
+
+var grpByPos = []string{".current", ".candidates", ".priority"}
+
+// allocShape reads `Allocate(ctx, c, current, candidates, priority)`: every statement must be
+// `v := util.SortNumeric(<map parameter>, true|false)` or the final `return append(a, b...), nil` /
+// `return append(append(a, b...), c...), nil` over such values. The map parameters are resolved BY POSITION in the
+// signature (what the PinAllocator interface fixes), not by name. Anything else: AllocShape.unknown.
+func allocShape(fd *ast.FuncDecl) string {
+	ps := paramNames(fd)
+	if len(ps) != 5 {
+		return "AllocShape.unknown"
+	}
+	grp := map[string]string{}
+	for k := 0; k < 3; k++ {
+		if ps[2+k] != "_" {
+			grp[ps[2+k]] = grpByPos[k]
+		}
+	}
+	sortCall := func(e ast.Expr) (string, bool) {
+		c, ok := e.(*ast.CallExpr)
+		if !ok || src(c.Fun) != "util.SortNumeric" || len(c.Args) != 2 {
+			return "", false
+		}
+		id, ok := c.Args[0].(*ast.Ident)
+		if !ok || grp[id.Name] == "" {
+			return "", false
+		}
+		rev := src(c.Args[1])
+		if rev != "true" && rev != "false" {
+			return "", false
+		}
+		return fmt.Sprintf("{ grp := %s, reverse := %s }", grp[id.Name], rev), true
+	}
+	vals := map[string][]string{}
+	var value func(e ast.Expr) ([]string, bool)
+	value = func(e ast.Expr) ([]string, bool) {
+		if id, ok := e.(*ast.Ident); ok {
+			v, ok := vals[id.Name]
+			return v, ok
+		}
+		if s, ok := sortCall(e); ok {
+			return []string{s}, true
+		}
+		if c, ok := e.(*ast.CallExpr); ok && src(c.Fun) == "append" && len(c.Args) == 2 && c.Ellipsis.IsValid() {
+			a, ok1 := value(c.Args[0])
+			b, ok2 := value(c.Args[1])
+			if ok1 && ok2 {
+				return append(append([]string{}, a...), b...), true
+			}
+		}
+		return nil, false
+	}
+	for k, st := range fd.Body.List {
+		if isLog(st) {
+			continue
+		}
+		switch s := st.(type) {
+		case *ast.AssignStmt:
+			if len(s.Lhs) != 1 || len(s.Rhs) != 1 {
+				return "AllocShape.unknown"
+			}
+			id, ok := s.Lhs[0].(*ast.Ident)
+			v, ok2 := value(s.Rhs[0])
+			if !ok || !ok2 || grp[id.Name] != "" {
+				return "AllocShape.unknown"
+			}
+			vals[id.Name] = v
+		case *ast.ReturnStmt:
+			if k != len(fd.Body.List)-1 || len(s.Results) != 2 || src(s.Results[1]) != "nil" {
+				return "AllocShape.unknown"
+			}
+			v, ok := value(s.Results[0])
+			if !ok {
+				return "AllocShape.unknown"
+			}
+			return "AllocShape.concat [" + strings.Join(v, ", ") + "]"
+		default:
+			return "AllocShape.unknown"
+		}
+	}
+	return "AllocShape.unknown"
+}
+
+// allocatorCallGroups reads the `c.allocator.Allocate(ctx, hash, A, B, C)` call of obtainAllocations: which of
+// obtainAllocations' own metric-map parameters (by position: 5th current, 6th candidates, 7th priority; the local
+// `currentValidMetrics` is the filtered current map) is handed to which allocator parameter.
+func allocatorCallGroups(obtain *ast.FuncDecl) string {
+	ps := paramNames(obtain)
+	if len(ps) != 7 {
+		return "[]"
+	}
+	grp := map[string]string{ps[4]: ".current", ps[5]: ".candidates", ps[6]: ".priority"}
+	// a local map filled only from the current-metrics parameter stands for it
+	ast.Inspect(obtain, func(n ast.Node) bool {
+		if r, ok := n.(*ast.RangeStmt); ok && src(r.X) == ps[4] {
+			ast.Inspect(r.Body, func(m ast.Node) bool {
+				if a, ok := m.(*ast.AssignStmt); ok && len(a.Lhs) == 1 {
+					if ix, ok := a.Lhs[0].(*ast.IndexExpr); ok {
+						if id, ok := ix.X.(*ast.Ident); ok && grp[id.Name] == "" {
+							grp[id.Name] = ".current"
+						}
+					}
+				}
+				return true
+			})
+		}
+		return true
+	})
+	var out []string
+	n := 0
+	ast.Inspect(obtain, func(nd ast.Node) bool {
+		if c, ok := nd.(*ast.CallExpr); ok && src(c.Fun) == "c.allocator.Allocate" {
+			n++
+			if len(c.Args) != 5 {
+				return true
+			}
+			for _, a := range c.Args[2:] {
+				id, ok := a.(*ast.Ident)
+				if !ok || grp[id.Name] == "" {
+					out = nil
+					return true
+				}
+				out = append(out, grp[id.Name])
+			}
+		}
+		return true
+	})
+	if n != 1 {
+		return "[]"
+	}
+	return "[" + strings.Join(out, ", ") + "]"
+}
+
+// repinShape reads repinFromPeer(ctx, p, pin): are the pin's allocations cleared before the call, and is the blacklist
+// handed to c.pin exactly the one-element list of the failed peer (2nd parameter, by position); and vacatePeer's loop
+// guard (re-pin only pins allocated to the peer).
+func repinShape(repin, vacate *ast.FuncDecl) string {
+	ps := paramNames(repin)
+	if len(ps) != 3 {
+		return "{ clearsAllocations := false, blacklistFailed := false, pinsGivenPin := false, vacateGuard := false }"
+	}
+	failed, pin := ps[1], ps[2]
+	clears, bl, given, calls := false, false, false, 0
+	for _, st := range repin.Body.List {
+		if a, ok := st.(*ast.AssignStmt); ok && len(a.Lhs) == 1 && len(a.Rhs) == 1 && calls == 0 {
+			if src(a.Lhs[0]) == pin+".Allocations" && (src(a.Rhs[0]) == "nil" || src(a.Rhs[0]) == "[]peer.ID{}") {
+				clears = true
+			}
+		}
+		ast.Inspect(st, func(n ast.Node) bool {
+			if c, ok := n.(*ast.CallExpr); ok && src(c.Fun) == "c.pin" && len(c.Args) == 3 {
+				calls++
+				given = src(c.Args[1]) == pin
+				bl = src(c.Args[2]) == "[]peer.ID{"+failed+"}"
+			}
+			return true
+		})
+	}
+	if calls != 1 {
+		clears, bl, given = false, false, false
+	}
+	vps := paramNames(vacate)
+	guard := false
+	if len(vps) == 2 {
+		ast.Inspect(vacate, func(n ast.Node) bool {
+			if r, ok := n.(*ast.RangeStmt); ok && len(r.Body.List) == 1 {
+				if ifs, ok := r.Body.List[0].(*ast.IfStmt); ok && ifs.Else == nil && ifs.Init == nil && len(ifs.Body.List) == 1 {
+					v := src(r.Value)
+					if src(ifs.Cond) == "containsPeer("+v+".Allocations, "+vps[1]+")" &&
+						src(ifs.Body.List[0]) == "c.repinFromPeer(ctx, "+vps[1]+", "+v+")" {
+						guard = true
+					}
+				}
+			}
+			return true
+		})
+	}
+	return fmt.Sprintf("{ clearsAllocations := %v, blacklistFailed := %v, pinsGivenPin := %v, vacateGuard := %v }", clears, bl, given, guard)
+}
+
 func lean(s string) string {
 	return `"` + strings.ReplaceAll(strings.ReplaceAll(s, `\`, `\\`), `"`, `\"`) + `"`
 }
@@ -417,7 +609,7 @@ func main() {
 	sortF := parse("allocator/util/metricsorter.go")
 
 	var b strings.Builder
-	b.WriteString("/- GENERATED by harness/extract_c03 from allocate.go, cluster_config.go, the allocators, monitor/metrics, pubsubmon, api/types.go, rpc_api.go, cluster.go; do not edit. -/\nimport ClusterVerif.Model.C03Pipeline\nnamespace CV.C03.Gen\n\n")
+	b.WriteString("/- GENERATED by harness/extract_c03 from allocate.go, cluster_config.go, the allocators, monitor/metrics, pubsubmon, api/types.go, rpc_api.go, cluster.go; do not edit. -/\nimport ClusterVerif.Model.C03Pipeline\nimport ClusterVerif.Model.C03Alloc\nnamespace CV.C03.Gen\n\n")
 	b.WriteString(leanList("allocateSkeleton", "allocate(): guards, where the metrics come from, and how the result of obtainAllocations is returned", early))
 	b.WriteString(leanList("classification", "allocate(): the cases, in order, that sort each valid metric into blacklisted / current / priority / candidate", cases))
 	b.WriteString(leanList("obtainSkeleton", "obtainAllocations(): definitions, guards (with what they return) and the final return, in order", oSk))
@@ -448,6 +640,10 @@ func main() {
 		return true
 	})
 	b.WriteString(leanList("pinAllocateCall", "Cluster.pin(): the arguments of its allocate() call", pinCalls))
+	b.WriteString("/-- ascendalloc.Allocate as a structure: which map parameter (by position) is sorted in which direction, concatenated in which order -/\ndef ascShape : AllocShape := " + allocShape(funcDeclRecv(ascF, "AscendAllocator", "Allocate")) + "\n\n")
+	b.WriteString("/-- descendalloc.Allocate as a structure -/\ndef descShape : AllocShape := " + allocShape(funcDeclRecv(descF, "DescendAllocator", "Allocate")) + "\n\n")
+	b.WriteString("/-- obtainAllocations(): which of its metric maps goes to which parameter of allocator.Allocate -/\ndef allocatorCallGroups : List Grp := " + allocatorCallGroups(obtain) + "\n\n")
+	b.WriteString("/-- repinFromPeer / vacatePeer: how the re-pin request is prepared -/\ndef repinShape : RepinShape := " + repinShape(funcDeclRecv(clusterF, "*Cluster", "repinFromPeer"), funcDeclRecv(clusterF, "*Cluster", "vacatePeer")) + "\n\n")
 	b.WriteString("end CV.C03.Gen\n")
 	fmt.Print(b.String())
 }
